@@ -552,6 +552,14 @@ def equal(a, b, facts=(), max_split=10, _depth=0):
         if a2_ == b2_: return True, None
         r2_ = equal(a2_, b2_, facts, max_split, 1)
         return r2_ if r2_[0] else r_
+    if _depth == 0 and any(u[0] in ('shr', 'and') and u[1][0] in ('or', 'shr') for u in subterms(a) | subterms(b)):
+        r_ = equal(a, b, facts, max_split, 1)
+        if r_[0]: return r_
+        # a packed value taken apart again (`bdf >> 8`, `(bdf >> 3) & 31`): a second attempt with the fields written out
+        a2_, b2_ = _extract_under(a, b, facts)
+        if a2_ == b2_: return True, None
+        r2_ = equal(a2_, b2_, facts, max_split, 1)
+        return r2_ if r2_[0] else r_
     pa = sorted(parity_atoms([a, b]), key=key)
     if len(pa) > 6: return False, {'reason': 'too many parity atoms'}
     for par in itertools.product((0, 1), repeat=len(pa)):
@@ -620,6 +628,58 @@ def _bit_leaves(t):
             for v in subterms(u):
                 if v[0] in ('a', 'sel') and rng(v) == (0, 1): out.add(v)
     return out if len(out) <= 6 else set()
+
+def _field_parts(t):
+    """t as a list of (value, shift, width) bit fields when it is an `|` of scaled values with known ranges that do not
+    overlap (`function | device << 3 | bus << 8` with function < 8, device < 32, bus < 256); None otherwise"""
+    out = []; used = 0
+    for p_ in or_parts(t):
+        sh = 0; v = p_
+        while v[0] == 'lin' and len(v[1]) == 1 and v[2] == 0 and v[1][0][1] > 0 and (v[1][0][1] & (v[1][0][1] - 1)) == 0:
+            sh += v[1][0][1].bit_length() - 1; v = v[1][0][0]
+        lo, hi = rng(v)
+        if lo < 0 or hi >= BIG: return None
+        w = max(hi.bit_length(), 1)
+        m = ((1 << w) - 1) << sh
+        if used & m: return None
+        used |= m; out.append((v, sh, w))
+    return out
+
+def _extract_fields(t):
+    """shifts and low masks of a packed value written out field by field: (a | b << 3 | c << 8) >> 8 is c, ... & 7 is a"""
+    def f(u):
+        if u[0] == 'shr' and u[2][0] == 'c' and u[1][0] == 'or':
+            ps = _field_parts(u[1]); k = u[2][1]
+            if ps is None or any(sh < k < sh + w for _, sh, w in ps): return None
+            r = ZERO
+            for v, sh, w in ps:
+                if sh >= k: r = bor(r, scale(_extract_fields(v), 1 << (sh - k)))
+            return r
+        if u[0] == 'and' and u[2][0] == 'c' and (u[2][1] & (u[2][1] + 1)) == 0:
+            x = _extract_fields(u[1]) if u[1][0] in ('shr', 'and') else u[1]
+            if x[0] != 'or' and x is not u[1]:
+                lo, hi = rng(x)
+                return x if lo >= 0 and hi <= u[2][1] else None
+            if x[0] != 'or': return None
+            ps = _field_parts(x); m = u[2][1].bit_length()
+            if ps is None or any(sh < m < sh + w for _, sh, w in ps): return None
+            r = ZERO
+            for v, sh, w in ps:
+                if sh + w <= m: r = bor(r, scale(v, 1 << sh))
+            return r
+        return None
+    return rebuild(t, f)
+
+def _extract_under(a, b, facts):
+    global CTX
+    saved_ = CTX
+    try:
+        rr = dict(saved_) if saved_ else {}
+        for fct in facts: refine(fct, rr)
+        CTX = rr
+        return _extract_fields(a), _extract_fields(b)
+    finally:
+        CTX = saved_
 
 ENUM_DISCR = {}         # scrutinee term -> [(variant name, discriminant)] of its (fieldless) enum
 
